@@ -57,6 +57,12 @@ func verifValidateExt(which int) *validate.FieldConstraints {
 		return &validate.FieldConstraints{Type: &validate.FieldConstraints_String_{String_: &validate.StringRules{WellKnown: &validate.StringRules_Uuid{Uuid: true}}}}
 	case 11:
 		return &validate.FieldConstraints{Type: &validate.FieldConstraints_Timestamp{Timestamp: &validate.TimestampRules{}}}
+	case 12:
+		ig := validate.Ignore_IGNORE_IF_UNPOPULATED
+		return &validate.FieldConstraints{Ignore: &ig, Type: &validate.FieldConstraints_Repeated{Repeated: &validate.RepeatedRules{MinItems: &u}}}
+	case 13:
+		ig := validate.Ignore_IGNORE_ALWAYS
+		return &validate.FieldConstraints{Ignore: &ig, Required: &t}
 	}
 	return nil
 }
@@ -93,20 +99,39 @@ func verifJ5Ext(which int) *ext_j5pb.FieldOptions {
 	return nil
 }
 
+// draws go through these variables so that a harness of another package (the
+// codec's, which cannot be imported from here) can build the same files with
+// its own draw functions: VerifArbitraryFile
+var (
+	verifChoice   = func(name string, n int) int { return ndChoice(name, n) }
+	verifBoolean  = func(name string) bool { return ndBool(name) }
+	verifIntRange = func(name string, lo, hi int) int { return ndIntRange(name, lo, hi) }
+)
+
+// VerifArbitraryFile: the file HarnessReflectArbitraryProto draws (message M
+// with 1..F symbolic fields, N, enums Good and Bad), drawn with the caller's functions.
+func VerifArbitraryFile(choice func(string, int) int, boolean func(string) bool, intRange func(string, int, int) int, F int) *descriptorpb.FileDescriptorProto {
+	c, b, r := verifChoice, verifBoolean, verifIntRange
+	verifChoice, verifBoolean, verifIntRange = choice, boolean, intRange
+	fdp := verifArbitraryFile(F)
+	verifChoice, verifBoolean, verifIntRange = c, b, r
+	return fdp
+}
+
 func verifDrawField(name string, number int32, oneofs int) *descriptorpb.FieldDescriptorProto {
-	kind := verifKindsAll[ndChoice("kind", len(verifKindsAll))]
+	kind := verifKindsAll[verifChoice("kind", len(verifKindsAll))]
 	fd := &descriptorpb.FieldDescriptorProto{Name: proto.String(name), Number: proto.Int32(number), Type: kind.Enum(), JsonName: proto.String(name),
 		Label: descriptorpb.FieldDescriptorProto_LABEL_OPTIONAL.Enum(), Options: &descriptorpb.FieldOptions{}}
 	switch kind {
 	case descriptorpb.FieldDescriptorProto_TYPE_MESSAGE:
-		fd.TypeName = proto.String([]string{".t.v1.M", ".t.v1.N", ".google.protobuf.Timestamp", ".google.protobuf.Duration", ".google.protobuf.Struct", ".google.protobuf.Any", ".google.protobuf.Empty", ".t.v1.M.Entry"}[ndChoice("messageType", 8)])
+		fd.TypeName = proto.String([]string{".t.v1.M", ".t.v1.N", ".google.protobuf.Timestamp", ".google.protobuf.Duration", ".google.protobuf.Struct", ".google.protobuf.Any", ".google.protobuf.Empty", ".t.v1.M.Entry"}[verifChoice("messageType", 8)])
 	case descriptorpb.FieldDescriptorProto_TYPE_ENUM:
-		fd.TypeName = proto.String([]string{".t.v1.Good", ".t.v1.Bad"}[ndChoice("enumType", 2)])
+		fd.TypeName = proto.String([]string{".t.v1.Good", ".t.v1.Bad"}[verifChoice("enumType", 2)])
 	}
 	if oneofs > 0 {
 		fd.OneofIndex = proto.Int32(0)
 	} else {
-		switch ndChoice("shape", 3) {
+		switch verifChoice("shape", 3) {
 		case 1:
 			fd.Label = descriptorpb.FieldDescriptorProto_LABEL_REPEATED.Enum()
 		case 2:
@@ -114,15 +139,15 @@ func verifDrawField(name string, number int32, oneofs int) *descriptorpb.FieldDe
 		}
 	}
 	// annotations: either a (validate, list) pair or a j5 field extension
-	if ndBool("annotateWithJ5Ext") {
-		if j := verifJ5Ext(ndChoice("j5ext", 6)); j != nil {
+	if verifBoolean("annotateWithJ5Ext") {
+		if j := verifJ5Ext(verifChoice("j5ext", 6)); j != nil {
 			proto.SetExtension(fd.Options, ext_j5pb.E_Field, j)
 		}
 	} else {
-		if v := verifValidateExt(ndChoice("validate", 12)); v != nil {
+		if v := verifValidateExt(verifChoice("validate", 14)); v != nil {
 			proto.SetExtension(fd.Options, validate.E_Field, v)
 		}
-		if l := verifListExt(ndChoice("list", 6)); l != nil {
+		if l := verifListExt(verifChoice("list", 6)); l != nil {
 			proto.SetExtension(fd.Options, list_j5pb.E_Field, l)
 		}
 	}
@@ -137,14 +162,14 @@ func verifMapEntry() *descriptorpb.DescriptorProto {
 		}}
 }
 
-func HarnessReflectArbitraryProto() {
-	nFields := ndIntRange("fields", 1, verifParam("F", 1))
-	withOneof := ndBool("realOneof")
+func verifArbitraryFile(F int) *descriptorpb.FileDescriptorProto {
+	nFields := verifIntRange("fields", 1, F)
+	withOneof := verifBoolean("realOneof")
 	m := &descriptorpb.DescriptorProto{Name: proto.String("M"), Options: &descriptorpb.MessageOptions{}, NestedType: []*descriptorpb.DescriptorProto{verifMapEntry()}}
 	oneofs := 0
 	if withOneof {
-		m.OneofDecl = []*descriptorpb.OneofDescriptorProto{{Name: proto.String([]string{"type", "choice"}[ndChoice("oneofName", 2)]), Options: &descriptorpb.OneofOptions{}}}
-		if ndBool("exposeOneof") {
+		m.OneofDecl = []*descriptorpb.OneofDescriptorProto{{Name: proto.String([]string{"type", "choice"}[verifChoice("oneofName", 2)]), Options: &descriptorpb.OneofOptions{}}}
+		if verifBoolean("exposeOneof") {
 			proto.SetExtension(m.OneofDecl[0].Options, ext_j5pb.E_Oneof, &ext_j5pb.OneofOptions{Expose: true})
 		}
 		oneofs = 1
@@ -158,7 +183,7 @@ func HarnessReflectArbitraryProto() {
 		{Name: proto.String("back"), Number: proto.Int32(1), Type: descriptorpb.FieldDescriptorProto_TYPE_MESSAGE.Enum(), TypeName: proto.String(".t.v1.M"), Label: descriptorpb.FieldDescriptorProto_LABEL_OPTIONAL.Enum(), Options: &descriptorpb.FieldOptions{}},
 		{Name: proto.String("self"), Number: proto.Int32(2), Type: descriptorpb.FieldDescriptorProto_TYPE_MESSAGE.Enum(), TypeName: proto.String(".t.v1.N"), Label: descriptorpb.FieldDescriptorProto_LABEL_REPEATED.Enum()},
 	}}
-	if ndBool("backReferenceFlattened") {
+	if verifBoolean("backReferenceFlattened") {
 		proto.SetExtension(n.Field[0].Options, ext_j5pb.E_Field, verifJ5Ext(2))
 	}
 	enumv := func(name string, n int32) *descriptorpb.EnumValueDescriptorProto {
@@ -170,6 +195,11 @@ func HarnessReflectArbitraryProto() {
 			{Name: proto.String("Good"), Value: []*descriptorpb.EnumValueDescriptorProto{enumv("GOOD_UNSPECIFIED", 0), enumv("GOOD_ONE", 1)}},
 			{Name: proto.String("Bad"), Value: []*descriptorpb.EnumValueDescriptorProto{enumv("FIRST", 0), enumv("OTHER", 2)}},
 		}}
+	return fdp
+}
+
+func HarnessReflectArbitraryProto() {
+	fdp := verifArbitraryFile(verifParam("F", 1))
 	u := j5schema.VerifNewUniverse(fdp)
 	msg := u.Message("t.v1.M")
 	cache := j5schema.NewSchemaCache()
